@@ -179,7 +179,14 @@ func UnparseFeatureID(id b6.FeatureID, abbreviate bool) string {
 	if abbreviate {
 		for _, alias := range aliases {
 			if alias.Namespace == id.Namespace && (alias.Type == b6.FeatureTypeInvalid || alias.Type == id.Type) {
-				return alias.ToString(&alias, id)
+				// Only abbreviate when the alias form identifies the same
+				// feature: values that aren't, eg, an encoded postcode or
+				// ONS code can't be represented by their alias.
+				token := alias.ToString(&alias, id)
+				if parsed, err := ParseFeatureIDToken(token); err == nil && parsed == id {
+					return token
+				}
+				break
 			}
 		}
 	}
